@@ -179,6 +179,13 @@ def generate(write: bool = True) -> Dict[str, Any]:
     if old != text and write:
         with open(OUT, "w") as f:
             f.write(text)
+    # expression-level translation of straight-line numeric code → Generated/Numeric.lean
+    try:
+        import pytrans
+
+        report.update(pytrans.generate(write=write))
+    except Exception:  # the translator must never break the run
+        pass
     return report
 
 
